@@ -154,30 +154,23 @@ Variable sym : string -> option Z.
 Variable dot : Z.
 
 (* the model's outcome [m] is what the Spec says: the value and no report, or a report of every
-   identifier the Spec names (the code goes on evaluating after a report; the assembly fails) *)
+   identifier the Spec names (the code goes on evaluating after a report, or gives up; either way
+   the assembly fails) *)
+Definition reports_of (m : res (Z * list string)) : option (list string) :=
+  match m with Ok (_, e) => Some e | Err e => Some e | _ => None end.
+
 Definition agrees (m : res (Z * list string)) (s : res Z) : Prop :=
   match s with
   | Ok v => m = Ok (v, [])
-  | Err ids => exists v errs, m = Ok (v, errs) /\ errs <> [] /\ (forall id, In id ids -> In id errs)
+  | Err ids => exists errs, reports_of m = Some errs /\ errs <> [] /\ (forall id, In id ids -> In id errs)
   | _ => False
   end.
 
 Fixpoint keval (k : skel) : res (Z * list string) :=
   match k with
   | KLeaf t => meval encode sym dot t
-  | KUn u x =>
-      do a <- keval x;
-      match prefix_body (unop_text u) with
-      | Some f => do v <- f (fst a); Ok (fst v, snd a ++ snd v)
-      | None => Crash "KeyError:operator"
-      end
-  | KBin o l r =>
-      do a <- keval l;
-      do b <- keval r;
-      match infix_body (binop_text o) with
-      | Some f => do v <- f (fst a) (fst b); Ok (fst v, snd a ++ snd b ++ snd v)
-      | None => Crash "KeyError:operator"
-      end
+  | KUn u x => eval1 (keval x) (prefix_body (unop_text u))
+  | KBin o l r => eval2 (keval l) (keval r) (infix_body (binop_text o))
   end.
 
 Lemma meval_skel : forall t k, skel_p t = Some k -> meval encode sym dot t = keval k.
@@ -203,18 +196,20 @@ Fixpoint no_registers (e : expr) : bool :=
   | Bin _ l r => no_registers l && no_registers r
   end.
 
-Lemma ok_of_agrees m s : agrees m s -> exists v errs, m = Ok (v, errs).
+Lemma agrees_err m errs ids : reports_of m = Some errs -> errs <> [] -> (forall id, In id ids -> In id errs) ->
+  agrees m (Err ids).
+Proof. intros H1 H2 H3. exists errs. auto. Qed.
+
+Lemma agrees_reports m s : agrees m s -> exists errs, reports_of m = Some errs.
 Proof.
   destruct s as [v|ids|site|]; simpl; try contradiction.
-  - intros H. eauto.
-  - intros [v [errs [H _]]]. eauto.
+  - intros ->. exists []. reflexivity.
+  - intros [errs [H _]]. exists errs. exact H.
 Qed.
 
-Lemma res_of_ok (r : res opres) v : res_of r = Ok v -> r = Ok (v, []).
-Proof.
-  destruct r as [[v' errs]|ids|site|]; simpl; try discriminate.
-  destruct errs; [|discriminate]. intros H. inversion H. reflexivity.
-Qed.
+Lemma reports_cases m errs : reports_of m = Some errs -> (exists v, m = Ok (v, errs)) \/ m = Err errs.
+Proof. destruct m as [[v e]|e|s|]; simpl; intros H; inversion H; subst; eauto. Qed.
+
 Lemma chars_agree cs : agrees (Ok (char_value encode cs)) (chars_value enc cs).
 Proof.
   unfold char_value, chars_value. rewrite encode_charwise.
@@ -225,67 +220,113 @@ Proof.
     + reflexivity.
     + replace (2 <? N.of_nat (length (b0 :: b1 :: b2 :: bs)))%N with true
         by (symmetry; apply N.ltb_lt; cbn [length]; lia).
-      eexists; eexists. split; [reflexivity|]. split; [discriminate|]. intros id H. exact H.
-  - simpl. eexists; eexists. split; [reflexivity|]. split; [discriminate|]. intros id H. exact H.
+      eapply agrees_err; [reflexivity|discriminate|intros id H; exact H].
+  - eapply agrees_err; [reflexivity|discriminate|intros id H; exact H].
 Qed.
-
-Lemma agrees_err v errs ids : errs <> [] -> (forall id, In id ids -> In id errs) ->
-  agrees (Ok (v, errs)) (Err ids).
-Proof. intros H1 H2. exists v, errs. auto. Qed.
 
 Lemma lit_agrees l : lit_ok l = true ->
   agrees (meval encode sym dot (lit_tree l)) (lit_value enc l).
 Proof.
   intros Hok. destruct l as [neg st up ud n|neg ds|c|c1 c2|cs]; cbn [lit_tree lit_value].
   - reflexivity.
-  - destruct neg; cbn [meval]; apply agrees_err; try discriminate; intros id H; exact H.
+  - destruct neg; cbn [meval]; (eapply agrees_err; [reflexivity|discriminate|intros id H; exact H]).
   - apply chars_agree.
   - apply chars_agree.
   - destruct (rad50_lexes cs Hok) as [v [Hlex Hw]]. rewrite Hlex, Hw. reflexivity.
 Qed.
 
-(* a translated body returns, with no report exactly when the Spec gives a value *)
-Lemma un_body (u : unop) (a : Z) : exists f, prefix_body (unop_text u) = Some f /\
-  match sem_un u a with
-  | Ok v => f a = Ok (v, [])
-  | Err ids => exists v, f a = Ok (v, ids) /\ ids <> []
-  | _ => False
+(* what a translated body does to the reports made so far, in terms of res_of *)
+Lemma apply_res_of errs (r : res opres) :
+  match res_of r with
+  | Ok v => apply_body errs r = Ok (v, errs)
+  | Err ids => reports_of (apply_body errs r) = Some (errs ++ ids)
+  | _ => True
   end.
 Proof.
-  destruct (ops_agree_un u a) as [f [Hf Hag]]. exists f. split; [exact Hf|].
-  destruct u; simpl in *; inversion Hf; subst; reflexivity.
+  destruct r as [[v e]|ids|s|]; simpl; try exact I.
+  - destruct e; [rewrite app_nil_r; reflexivity|reflexivity].
+  - reflexivity.
+  - destruct (String.eqb s "MemoryError"); [reflexivity|exact I].
 Qed.
 
-Lemma bin_body o a b : exists f, infix_body (binop_text o) = Some f /\
+Lemma sem_bin_err_nonempty o a b ids : sem_bin o a b = Err ids -> ids <> [].
+Proof.
+  destruct o; unfold sem_bin, arith_error, too_complex;
+    repeat match goal with |- context [if ?c then _ else _] => destruct c end;
+    intros H; inversion H; discriminate.
+Qed.
+
+Lemma bin_apply (o : binop) (a b : Z) errs : exists f e', infix_body (binop_text o) = Some f /\
+  reports_of (apply_body errs (f a b)) = Some (errs ++ e') /\
   match sem_bin o a b with
-  | Ok v => f a b = Ok (v, [])
-  | Err ids => exists v, f a b = Ok (v, ids) /\ ids <> []
+  | Ok v => apply_body errs (f a b) = Ok (v, errs)
+  | Err ids => e' <> [] /\ (forall id, In id ids -> In id e')
   | _ => False
   end.
 Proof.
-  destruct (ops_agree_bin o a b) as [f [Hf Hag]]. exists f. split; [exact Hf|].
-  destruct (sem_bin o a b) as [v|ids|site|] eqn:E.
-  - apply res_of_ok. exact Hag.
-  - destruct (f a b) as [[v' errs]|ids'|site|] eqn:Ef; simpl in Hag; try discriminate.
-    + destruct errs; [discriminate|]. inversion Hag; subst. exists v'. split; [reflexivity|discriminate].
-    + (* a body never gives up *)
-      exfalso. destruct o; simpl in Hf; inversion Hf; subst; clear Hf;
-        unfold body_div, body_mod, body_lshift, body_rshift, body_lsh, py_floordiv, py_mod, py_pow,
-               py_rshift, py_lshift, py_assert, catch_zde in Ef;
-        repeat match type of Ef with context [if ?c then _ else _] => destruct c end;
-        simpl in Ef; discriminate.
-  - destruct o; simpl in E; repeat match type of E with context [if ?c then _ else _] => destruct c end; discriminate.
-  - destruct o; simpl in E; repeat match type of E with context [if ?c then _ else _] => destruct c end; discriminate.
+  destruct (ops_agree_bin_all o a b) as [f [Hf Hc]].
+  pose proof (apply_res_of errs (f a b)) as Hap.
+  destruct (sem_bin o a b) as [v|ids|s|] eqn:Es; simpl in Hc; try contradiction.
+  - rewrite Hc in Hap. exists f, []. split; [exact Hf|]. rewrite Hap. rewrite app_nil_r. split; reflexivity.
+  - destruct Hc as [ids' [Hr Hin]]. rewrite Hr in Hap. exists f, ids'. split; [exact Hf|]. split; [exact Hap|].
+    split; [|exact Hin]. pose proof (sem_bin_err_nonempty o a b ids Es) as Hne.
+    destruct ids as [|i ids]; [congruence|]. intros E. specialize (Hin i (or_introl eq_refl)). rewrite E in Hin. exact Hin.
+Qed.
+
+Lemma un_apply (u : unop) (a : Z) errs : exists f v, prefix_body (unop_text u) = Some f /\
+  sem_un u a = Ok v /\ apply_body errs (f a) = Ok (v, errs).
+Proof.
+  destruct (ops_agree_un u a) as [f [Hf Hag]].
+  pose proof (apply_res_of errs (f a)) as Hap. rewrite Hag in Hap.
+  destruct u; simpl in *; eexists; eexists; (split; [exact Hf|]); (split; [reflexivity|exact Hap]).
 Qed.
 
 Lemma in_app_l {A} (x : A) a b : In x a -> In x (a ++ b).
 Proof. intros. apply in_or_app. left. assumption. Qed.
-Lemma in_app_r {A} (x : A) a b : In x b -> In x (a ++ b).
-Proof. intros. apply in_or_app. right. assumption. Qed.
 Lemma app_nonempty_l {A} (a b : list A) : a <> [] -> a ++ b <> [].
 Proof. destruct a; [congruence|discriminate]. Qed.
 Lemma app_nonempty_r {A} (a b : list A) : b <> [] -> a ++ b <> [].
 Proof. destruct a; [auto|discriminate]. Qed.
+
+Lemma eval2_agrees ml mr sl sr o : agrees ml sl -> agrees mr sr ->
+  agrees (eval2 ml mr (infix_body (binop_text o))) (do a <- sl; do b <- sr; sem_bin o a b).
+Proof.
+  intros Hl Hr.
+  destruct sl as [a|ids1|s|]; simpl in Hl; try contradiction.
+  - subst ml. destruct sr as [b|ids2|s|]; simpl in Hr; try contradiction.
+    + subst mr. cbn [eval2 bind fst snd app].
+      destruct (bin_apply o a b []) as [f [e' [Hf [Hrep Hs]]]]. rewrite Hf.
+      destruct (sem_bin o a b) as [v|ids|s|]; try contradiction.
+      * exact Hs.
+      * destruct Hs as [Hne Hin]. eapply agrees_err; [exact Hrep|exact Hne|exact Hin].
+    + destruct Hr as [errs2 [Hrep2 [Hne2 Hin2]]]. cbn [bind].
+      destruct (reports_cases _ _ Hrep2) as [[b Eb]| Eb]; subst mr; cbn [eval2 fst snd app].
+      * destruct (bin_apply o a b errs2) as [f [e' [Hf [Hrep _]]]]. rewrite Hf.
+        eapply agrees_err; [exact Hrep|apply app_nonempty_l; exact Hne2|intros id H; apply in_app_l; auto].
+      * eapply agrees_err; [reflexivity|exact Hne2|exact Hin2].
+  - destruct Hl as [errs1 [Hrep1 [Hne1 Hin1]]]. cbn [bind].
+    destruct (reports_cases _ _ Hrep1) as [[a Ea]| Ea]; subst ml; cbn [eval2 fst snd].
+    + destruct (agrees_reports _ _ Hr) as [errs2 Hrep2].
+      destruct (reports_cases _ _ Hrep2) as [[b Eb]| Eb]; subst mr.
+      * destruct (bin_apply o a b (errs1 ++ errs2)) as [f [e' [Hf [Hrep _]]]]. rewrite Hf.
+        eapply agrees_err; [exact Hrep|apply app_nonempty_l; apply app_nonempty_l; exact Hne1|
+                            intros id H; apply in_app_l; apply in_app_l; auto].
+      * eapply agrees_err; [reflexivity|apply app_nonempty_l; exact Hne1|intros id H; apply in_app_l; auto].
+    + eapply agrees_err; [reflexivity|exact Hne1|exact Hin1].
+Qed.
+
+Lemma eval1_agrees mx sx u : agrees mx sx ->
+  agrees (eval1 mx (prefix_body (unop_text u))) (do a <- sx; sem_un u a).
+Proof.
+  intros Hx. destruct sx as [a|ids|s|]; simpl in Hx; try contradiction.
+  - subst mx. cbn [eval1 bind fst snd].
+    destruct (un_apply u a []) as [f [v [Hf [Hs Hap]]]]. rewrite Hf, Hs, Hap. reflexivity.
+  - destruct Hx as [errs [Hrep [Hne Hin]]]. cbn [bind].
+    destruct (reports_cases _ _ Hrep) as [[a Ea]| Ea]; subst mx; cbn [eval1 fst snd].
+    + destruct (un_apply u a errs) as [f [v [Hf [Hs Hap]]]]. rewrite Hf, Hap.
+      eapply agrees_err; [reflexivity|exact Hne|exact Hin].
+    + eapply agrees_err; [reflexivity|exact Hne|exact Hin].
+Qed.
 
 Lemma keval_agrees : forall e terms, wf terms e = true -> no_registers e = true ->
   agrees (keval (skel_e e)) (eval enc sym dot e).
@@ -295,52 +336,15 @@ Proof.
   - cbn [skel_e keval eval meval]. cbn [no_registers] in Hreg. apply negb_true_iff in Hreg.
     rewrite Hreg. cbn [andb]. destruct (sym s) as [v|].
     + reflexivity.
-    + apply agrees_err; [discriminate|intros id H; exact H].
+    + eapply agrees_err; [reflexivity|discriminate|intros id H; exact H].
   - reflexivity.
-  - (* Un *)
-    cbn [skel_e keval eval]. specialize (IH terms Hwf Hreg).
-    destruct (eval enc sym dot x) as [a|ids|site|] eqn:Ex; simpl in IH; try contradiction.
-    + rewrite IH. cbn [bind fst snd].
-      destruct (un_body u a) as [f [Hf Hs]]. rewrite Hf.
-      destruct (sem_un u a) as [v|ids|site|] eqn:Es; try contradiction.
-      * rewrite Hs. reflexivity.
-      * destruct Hs as [v [Hs Hne]]. rewrite Hs. cbn [bind fst snd app].
-        apply agrees_err; [exact Hne|auto].
-    + destruct IH as [a [errs [Hk [Hne Hin]]]]. rewrite Hk. cbn [bind fst snd].
-      destruct (un_body u a) as [f [Hf Hs]]. rewrite Hf.
-      destruct (sem_un u a) as [v|ids2|site|] eqn:Es; try contradiction.
-      * rewrite Hs. cbn [bind fst snd]. rewrite app_nil_r. apply agrees_err; assumption.
-      * destruct Hs as [v [Hs Hne2]]. rewrite Hs. cbn [bind fst snd].
-        apply agrees_err; [apply app_nonempty_l; exact Hne|intros id H; apply in_app_l; auto].
-  - (* Bin *)
-    cbn [wf] in Hwf.
+  - cbn [skel_e keval eval]. apply eval1_agrees. apply (IH terms Hwf Hreg).
+  - cbn [wf] in Hwf.
     apply andb_true_iff in Hwf. destruct Hwf as [Hwf Hwr].
     apply andb_true_iff in Hwf. destruct Hwf as [_ Hwl].
     cbn [no_registers] in Hreg. apply andb_true_iff in Hreg. destruct Hreg as [Hrl Hrr].
-    specialize (IHl terms Hwl Hrl). specialize (IHr terms Hwr Hrr).
-    cbn [skel_e keval eval].
-    destruct (ok_of_agrees _ _ IHl) as [a [e1 Ha]]. destruct (ok_of_agrees _ _ IHr) as [b [e2 Hb]].
-    rewrite Ha, Hb in *. cbn [bind fst snd].
-    destruct (bin_body o a b) as [f [Hf Hs]]. rewrite Hf.
-    assert (Hfab : exists v e3, f a b = Ok (v, e3) /\
-              match sem_bin o a b with Ok v' => v = v' /\ e3 = [] | Err ids => e3 = ids /\ ids <> [] | _ => False end).
-    { destruct (sem_bin o a b) as [v|ids|site|]; try contradiction.
-      - exists v, []. auto.
-      - destruct Hs as [v [Hs Hne]]. exists v, ids. auto. }
-    destruct Hfab as [v [e3 [Hfab Hsem]]]. rewrite Hfab. cbn [bind fst snd].
-    destruct (eval enc sym dot l) as [a'|ids1|site|] eqn:El; simpl in IHl; try contradiction.
-    + inversion IHl; subst a' e1. clear IHl.
-      destruct (eval enc sym dot r) as [b'|ids2|site|] eqn:Er; simpl in IHr; try contradiction.
-      * inversion IHr; subst b' e2. clear IHr. cbn [bind app].
-        destruct (sem_bin o a b) as [v'|ids|site|]; try contradiction.
-        -- destruct Hsem; subst. reflexivity.
-        -- destruct Hsem as [E Hne]; subst. apply agrees_err; [exact Hne|auto].
-      * destruct IHr as [b' [e2' [Hk [Hne Hin]]]]. inversion Hk; subst b' e2'. cbn [bind app].
-        apply agrees_err; [apply app_nonempty_l; exact Hne|intros id H; apply in_app_l; auto].
-    + destruct IHl as [a' [e1' [Hk [Hne Hin]]]]. inversion Hk; subst a' e1'. cbn [bind].
-      apply agrees_err; [apply app_nonempty_l; exact Hne|intros id H; apply in_app_l; auto].
-  - (* Group *)
-    cbn [skel_e eval]. destruct b as [| |c]; cbn [wf] in Hwf.
+    cbn [skel_e keval eval]. apply eval2_agrees; [apply (IHl terms Hwl Hrl)|apply (IHr terms Hwr Hrr)].
+  - cbn [skel_e eval]. destruct b as [| |c]; cbn [wf] in Hwf.
     + apply (IH terms Hwf Hreg).
     + apply (IH terms Hwf Hreg).
     + apply andb_true_iff in Hwf. destruct Hwf as [_ Hwf]. apply (IH (c :: terms) Hwf Hreg).
